@@ -86,7 +86,11 @@ class C01(PropCheck):
     def classify(self, d):
         if d['section'] == 'pm-foot-documents':
             return pm_foot_corr.classify(pm_foot_corr.doc_from_json(d['meta']['doc']), d['impl'])
-        if d['section'] in ('wide-traces', 'fixed-regressions'):
+        if d['section'] == 'fixed-regressions':
+            # a regression document is excused only by the one residual finding recorded for this very document
+            found = wide_trace.explain(d['meta'], d['model'])
+            return found if found is not None and found == RESIDUAL.get(d['meta']['doc_id']) else None
+        if d['section'] == 'wide-traces':
             return wide_trace.explain(d['meta'], d['model'])
         if d['section'] == 'families' and d['meta']['doc_id'] in self._family_known.get('conserve', ()):
             return 'family-documents-known'
@@ -208,6 +212,10 @@ FIXED_REGRESSIONS = [('float-fragment-duplicated', 'float_fragment_duplicated'),
                      ('column-span-loses-following-content', 'column_span_loses'),
                      ('table-cell-restarts-after-empty-fragment', 'table_cell_restarts'),
                      ('table-in-columns-duplicates-rows', 'table_in_columns_duplicates_rows')]
+
+
+# what is left, as a listed finding, of a repaired finding on its own regression document
+RESIDUAL = {'table-cell-restarts-after-empty-fragment': 'table-cell-skips-a-page'}
 
 
 def fixed_regression_cases():
